@@ -19,7 +19,7 @@ for variant in patched clean; do
     demo=$(cd "$d" && go test -count=1 -tags "$tags" "$@" ./zzdemo/ 2>&1 | tail -3 | tr '\n' ' ')
   else
     cp "$out"/*_test.go "$d/"
-    demo=$(cd "$d" && go test -count=1 -run "${DEMO_RUN:-Demo}" "$@" . 2>&1 | tail -3 | tr '\n' ' ')
+    demo=$(cd "$d" && env ${DEMO_ENV:-} go test -count=1 -run "${DEMO_RUN:-Demo}" "$@" . 2>&1 | tail -3 | tr '\n' ' ')
   fi
   res="$res | $variant demo: $demo"
   rm -rf "$d"
